@@ -79,6 +79,10 @@ def check(ctx):
             o = drv.ask(f's.bern {fkey(p)} {enc_ints(fkey(x) for x in us)}')
             if dec_ints(o) != [int(x) for x in bern]:
                 C.issue('bernoulli-mismatch', 'correspondence', rp, model=o, real=list(bern))
+            # the function as the translator read it (BernProg), run by its Lean semantics
+            o = drv.ask(f'w.bern {fkey(p)} {enc_ints(fkey(x) for x in us)}')
+            if o == 'error' or dec_ints(o) != [int(x) for x in bern]:
+                C.issue('translated-bernoulli-mismatch', 'correspondence', rp, model=o, real=list(bern))
             C.case(key=('b', seed, p, n), nontrivial=p in (0.0, 1.0) or n > 3, kind='bernoulli')
             # ---------------- levy
             beta = C.rng.choice([0.1, 0.5, 1.0, 1.5, 2.0]) if C.rng.random() < 0.7 else round(C.rng.uniform(0.05, 2.0), 3)
@@ -148,6 +152,9 @@ def check(ctx):
                 o = drv.ask(f"s.tour {enc_ints(fkey(x) for x in fit)} {';'.join(enc_ints(fkey(x) for x in rd) for rd in rounds)}")
                 if o == 'error' or dec_ints(o) != [int(x) for x in sel]:
                     C.issue('tournament-mismatch', 'correspondence', rp, model=o, real=[int(x) for x in sel])
+                o = drv.ask(f"w.tour {enc_ints(fkey(x) for x in fit)} {';'.join(enc_ints(fkey(x) for x in rd) for rd in rounds)}")
+                if o == 'error' or dec_ints(o) != [int(x) for x in sel]:
+                    C.issue('translated-tournament-mismatch', 'correspondence', rp, model=o, real=[int(x) for x in sel])
             elif nsel:
                 C.issue('tournament-draws-not-fitness-values', 'correspondence', rp, drawn=drawn[:6])
             C.case(key=('t', seed, tuple(fit), nsel), nontrivial=mode != 'rand' and nsel > 0, kind='tournament-' + mode,
